@@ -275,6 +275,7 @@ fn show_row(r: &Row) -> String {
         "typed" => format!("typed:{}", r.ty),
         "list" => format!("list:{}:{}:{}", r.sep, ebool(r.trim), r.ty),
         "filterParaWithout" => format!("filterParaWithout:{}", r.ty),
+        "filterParaWithoutTail" => format!("filterParaWithoutTail:{}", r.ty),
         t => t.to_string(),
     };
     format!(
@@ -1221,7 +1222,7 @@ pub fn handle(op: &str, a: &[&str]) -> Option<Resp> {
                 None => return Some(Resp::with("norow".to_string(), Some("harness line without a table row".to_string()))),
             };
             let obs = show_row(r);
-            let para_level = matches!(r.tag.as_str(), "findPara" | "filterPara" | "addPara" | "derived") || r.kind == "other"
+            let para_level = matches!(r.tag.as_str(), "findPara" | "filterPara" | "filterParaTail" | "addPara" | "derived") || r.kind == "other"
                 || r.op == "paragraphs";
             if para_level {
                 return Some(Resp::ok(obs));
